@@ -167,7 +167,22 @@ fn vfs_multi(path: &str) -> Result<Vec<u8>, Box<dyn std::error::Error + Send + S
     }
 }
 
+fn vfs_paris(path: &str) -> Result<Vec<u8>, Box<dyn std::error::Error + Send + Sync + 'static>> {
+    match path {
+        "/etc/localtime" | "/usr/share/zoneinfo/Home" => Ok(footer_file(b'2', b"CET-1CEST,M3.5.0,M10.5.0/3")),
+        _ => Err("no such file".into()),
+    }
+}
+fn vfs_tokyo(path: &str) -> Result<Vec<u8>, Box<dyn std::error::Error + Send + Sync + 'static>> {
+    match path {
+        "/etc/localtime" | "/usr/share/zoneinfo/Home" => Ok(footer_file(b'2', b"JST-9")),
+        _ => Err("no such file".into()),
+    }
+}
+
 pub struct Shared {
+    pub default_paris: TimeZoneSettings<'static>,
+    pub default_tokyo: TimeZoneSettings<'static>,
     pub paris: TimeZone,
     pub ny: TimeZone,
     pub la: TimeZone,
@@ -202,6 +217,8 @@ impl Shared {
             la: mk(us_p),
             table,
             settings: TimeZoneSettings::new(&DIRS, vfs_multi),
+            default_paris: TimeZoneSettings::new(TimeZoneSettings::DEFAULT_DIRECTORIES, vfs_paris),
+            default_tokyo: TimeZoneSettings::new(TimeZoneSettings::DEFAULT_DIRECTORIES, vfs_tokyo),
             file_ext: footer_file(b'3', b"EST5EDT,0/0,J365/25"),
             utc_dt: UtcDateTime::from_timespec(1_600_000_000, 5).unwrap(),
             dt: DateTime::from_timespec_and_local(1_600_000_000, 5, ltt).unwrap(),
@@ -227,6 +244,8 @@ impl Shared {
             raw(&mut f, r.extra_rule());
         }
         raw(&mut f, &self.settings);
+        raw(&mut f, &self.default_paris);
+        raw(&mut f, &self.default_tokyo);
         raw_slice(&mut f, &self.file_ext);
         raw(&mut f, &self.utc_dt);
         raw(&mut f, &self.dt);
@@ -287,6 +306,11 @@ pub fn ops() -> Vec<Op> {
         op("settings Third", |s| d(s.settings.parse_posix_tz(":Third").map_err(|e| e.to_string()))),
         op("settings localtime", |s| d(s.settings.parse_local().map_err(|e| e.to_string()))),
         op("settings missing", |s| d(s.settings.parse_posix_tz(":Nope").map_err(|e| e.to_string()))),
+        // two settings values with the DEFAULT directory list but different file systems (a process-wide latch would leak)
+        op("default-dirs paris local", |s| d(s.default_paris.parse_local().map_err(|e| e.to_string()))),
+        op("default-dirs tokyo local", |s| d(s.default_tokyo.parse_local().map_err(|e| e.to_string()))),
+        op("default-dirs paris Home", |s| d(s.default_paris.parse_posix_tz("Home").map_err(|e| e.to_string()))),
+        op("default-dirs tokyo Home", |s| d(s.default_tokyo.parse_posix_tz(":Home").map_err(|e| e.to_string()))),
         // constructors, projections, Display
         op("construct zone", |_| d(TimeZone::new(vec![Transition::new(5, 0)], vec![LocalTimeType::utc()], vec![], None))),
         op("project", |s| d(s.utc_dt.project(s.paris.as_ref()).and_then(|x| x.project(s.la.as_ref())))),
@@ -475,7 +499,7 @@ pub fn run(args: &Args) -> i32 {
     }
     rec.add(steps, histories - n as u64);
     rec.add_model(histories, steps, steps);
-    rec.set_rule("explored object = tree of operation histories (no deduplication possible: the subject exposes no state): every sequence of <= 3 operations over a 32-op collision alphabet (thorough: + all length-4 histories over a 16-op subset); after every operation: result digest == run-alone digest (fresh process, 4 TZ/TZDIR environments), no changed byte in .data/.bss/TLS of the executable, no getenv call, raw bytes of shared values unchanged. non-trivial = histories of length >= 2");
+    rec.set_rule("explored object = tree of operation histories (no deduplication possible: the subject exposes no state): every sequence of <= 3 operations over a 36-op collision alphabet (thorough: + all length-4 histories over a 16-op subset); after every operation: result digest == run-alone digest (fresh process, 4 TZ/TZDIR environments), no changed byte in .data/.bss/TLS of the executable, no getenv call, raw bytes of shared values unchanged. non-trivial = histories of length >= 2");
     rec.set_exhaustive(true);
     rec.outcome(&format!("{} distinct results", distinct_results.len()));
     rec.outcome("run-alone");
